@@ -464,7 +464,11 @@ static RunRes run_plan(const CtlPlan &p) {
     RunRes R;
     C.files.clear(); C.tmp_counter = 0; C.next_fd = 10000;
     SFile lib; lib.content = "ELF"; C.files[LIBPATH] = lib;
-    if (p.exists) { SFile f; f.content = p.initial; C.files[PRELOAD] = f; }
+    // permission bits and owner of the file as the administrator left it (from the seed): replacing the content must not change them
+    static const int modes[] = {0644, 0644, 0644, 0644, 0600, 0664, 0640, 0444}; static const unsigned owners[] = {0, 0, 0, 1000};
+    uint64_t mh = fnv(std::to_string(p.seed) + "meta", 1469598103934665603ULL);
+    int m0 = modes[mh % 8]; unsigned u0 = owners[(mh >> 8) % 4], g0 = owners[(mh >> 16) % 4] ? 100 : 0;
+    if (p.exists) { SFile f; f.content = p.initial; f.mode = m0; f.uid = u0; f.gid = g0; C.files[PRELOAD] = f; }
     bool ex0 = p.exists; std::string cur0 = p.initial; uint64_t h = 1469598103934665603ULL;
     const bool orig_ex = p.exists; const std::string orig = p.initial;
     bool prev_enable_new = false; std::string before_enable; bool before_enable_ex = false;
@@ -477,6 +481,14 @@ static RunRes run_plan(const CtlPlan &p) {
         for (auto &e : o.trace) h = fnv(e.k + "|" + e.s + "|" + std::to_string(e.ret) + "|" + std::to_string(e.err) + ";", h);
         h = fnv(now + "#" + std::to_string(o.exit_code) + (o.crashed ? "C" : ""), h);
         R.hash = h;
+        if (ex0 && ex1) {
+            const SFile &fnow = C.files[PRELOAD];
+            if (fnow.mode != m0 || fnow.uid != u0 || fnow.gid != g0) {
+                char b[160]; snprintf(b, sizeof b, "%s turned mode %04o owner %u:%u into mode %04o owner %u:%u", op.c_str(), m0, u0, g0, fnow.mode, fnow.uid, fnow.gid);
+                R.v = V("file-metadata-changed", std::string(b) + " (the file is replaced, its permissions and ownership belong to it)"); return R;
+            }
+        }
+        if (!ex0 && ex1) { const SFile &fnow = C.files[PRELOAD]; m0 = fnow.mode; u0 = fnow.uid; g0 = fnow.gid; }   // created by this operation: whatever it was created with
         if (p.property == "C20") {
             // atomicity: whatever happened, the file holds the complete old or the complete new content
             Model me = model_enable(ex0, cur0);
@@ -484,7 +496,7 @@ static RunRes run_plan(const CtlPlan &p) {
             bool ok_new = false;
             if (op == "enable") ok_new = ex1 && now == me.newc && me.may_new;
             else {   // the complete new content of a disable = what the fault-free run produces
-                C.files.clear(); C.files[LIBPATH] = lib; if (ex0) { SFile f; f.content = cur0; C.files[PRELOAD] = f; }
+                C.files.clear(); C.files[LIBPATH] = lib; if (ex0) { SFile f; f.content = cur0; f.mode = m0; f.uid = u0; f.gid = g0; C.files[PRELOAD] = f; }
                 run_action(op, -1, -1, 0, false);
                 std::string full = C.files.count(PRELOAD) ? C.files[PRELOAD].content : ""; bool fex = C.files.count(PRELOAD) != 0;
                 ok_new = ex1 == fex && now == full;
